@@ -190,7 +190,7 @@ def plan(n):
     return {"w_clean": [False, True] if n % 8 == 0 else ([False] if n % 4 == 0 else []),
             "cli_clean": [["--check-for-warnings"]] if n % 8 == 0 else ([[]] if n % 4 == 0 else []),
             "w_seeded": [False, True] if n % 8 == 3 else [False],
-            "cli_seeded": [["-f", "json"]] if n % 16 == 5 else ([["--check-for-warnings"]] if n % 8 == 3 else [[]])}
+            "cli_seeded": [["-f", "json"]] if n % 32 == 5 else ([["--check-for-warnings"]] if n % 8 == 3 else ([[]] if n % 2 else []))}
 
 
 def execute(case):
@@ -341,19 +341,29 @@ def _tree_key(t):
     return json.dumps([t["shape"], sorted(t["decoy"]), sorted((s["path"], sorted(s["cols"])) for s in t["sidecars"])], sort_keys=True)
 
 
-def _tlc_jobs(ctx, jobs):
-    """Run several TLC jobs concurrently (they are independent processes) and book them like Ctx.tlc does.
-    jobs: list of dict(module, cfg, label, expect (None = must pass, or the invariant that must be violated), **tlc.run kwargs)"""
-    import concurrent.futures as cf
+class _TlcJobs:
+    """Run several TLC jobs concurrently (independent processes) and book them the way Ctx.tlc does.
+    job: dict(module, cfg, label, expect (None = must pass, or the name of the invariant that must be violated), **tlc.run kwargs)"""
 
-    def one(i, job):
+    def __init__(self, ctx, jobs):
+        import concurrent.futures as cf
+        self.ctx, self.jobs = ctx, jobs
+        self.ex = cf.ThreadPoolExecutor(len(jobs))
+        self.futs = [self.ex.submit(self._one, i, j) for i, j in enumerate(jobs)]
+        self.booked = set()
+
+    def _one(self, i, job):
         kw = {k: v for k, v in job.items() if k not in ("module", "cfg", "label", "expect")}
-        kw["workdir"] = os.path.join(ctx.work, "tlc%d" % i)
+        kw["workdir"] = os.path.join(self.ctx.work, "tlc%d" % i)
         return tlc.run(job["module"], job["cfg"], **kw)
-    with cf.ThreadPoolExecutor(len(jobs)) as ex:
-        futs = [ex.submit(one, i, j) for i, j in enumerate(jobs)]
-        res = [f.result() for f in futs]
-    for job, r in zip(jobs, res):
+
+    def result(self, i):
+        """wait for job i, book it, check its verdict"""
+        ctx, job = self.ctx, self.jobs[i]
+        r = self.futs[i].result()
+        if i in self.booked:
+            return r
+        self.booked.add(i)
         ctx.states += r.distinct
         ctx.transitions += r.generated
         ctx.tlc_runs.append(dict(r.as_dict(), module=job["module"], cfg=job["cfg"], label=job["label"], violated=r.violated))
@@ -365,7 +375,14 @@ def _tlc_jobs(ctx, jobs):
                                                                   "\n".join(x + "\n" + y for x, y in r.trace[-3:])))
         if job.get("expect") is not None and r.violated != job["expect"]:
             raise tlc.TLCFailure("sensitivity run %s: expected %s to be violated, got %r" % (job["cfg"], job["expect"], r.violated))
-    return res
+        return r
+
+    def finish(self):
+        try:
+            for i in range(len(self.jobs)):
+                self.result(i)
+        finally:
+            self.ex.shutdown(wait=True)
 
 
 SENS = [("MC_Bids_shallow.cfg", "MergedIsTopDown", "shallower sidecar wins"),
@@ -401,15 +418,23 @@ def run(ctx):
     jobs.append(dict(module="MC_Bids", cfg="MC_Bids_gen.cfg" if quick else "MC_Bids_gen_thorough.cfg", workers=1, timeout=2400,
                      expect=None, label="tree generation (exhaustive) with expected chains and merges"))
     jobs.append(dict(module="MC_Bids", cfg="MC_Bids_sim.cfg", workers=1, mode="simulate",
-                     simulate="num=%d" % (250 if quick else 6000), depth=5, seed=ctx.seed + 16, timeout=2400, expect=None,
+                     simulate="num=%d" % (160 if quick else 8000), depth=5, seed=ctx.seed + 16, timeout=2400, expect=None,
+                     extra=["-generate"],     # random behaviours, invariants (Emit) evaluated on the behaviour's states only
                      label="tree generation (simulate, all shapes, <= 4 sidecars)"))
-    res = _tlc_jobs(ctx, jobs)
+    tj = _TlcJobs(ctx, jobs)       # design / sensitivity runs keep running while the generated trees are replayed
+    try:
+        _run_replay(ctx, tj, len(jobs) - 2, len(jobs) - 1)
+    finally:
+        tj.finish()
     ctx.note("sensitivity_runs", [s[0] for s in SENS])
+
+
+def _run_replay(ctx, tj, i_gen, i_sim):
     trees = {}
-    for j in res[-2].json_lines:
+    for j in tj.result(i_gen).json_lines:
         trees.setdefault(_tree_key(j), j)
     n_exh = len(trees)
-    for j in res[-1].json_lines:
+    for j in tj.result(i_sim).json_lines:
         if j["nsc"] >= 2:
             trees.setdefault(_tree_key(j), j)
     ctx.exhaustive = True
